@@ -240,6 +240,11 @@ def _guard(args: tuple) -> Any:
                 + traceback.format_exc()[-3000:])
 
 
+def _guard_chunk(args: tuple) -> list:
+    fn, items = args
+    return [_guard((fn, it)) for it in items]
+
+
 def pmap(
     fn: Callable, items: Iterable, procs: int = 16,
     initfn: Callable | None = None, chunksize: int = 1,
@@ -267,12 +272,19 @@ def pmap(
                 raise HarnessError(r[1])
             yield r[1]
         return
-    ctx = mp.get_context('fork')
-    pool = ctx.Pool(procs, initializer=_pool_init, initargs=(initfn,),
-                    maxtasksperchild=maxtasksperchild)
+    key = (procs, initfn, maxtasksperchild)
+    pool = _POOLS.get(key)
+    if pool is None:
+        ctx = mp.get_context('fork')
+        pool = ctx.Pool(procs, initializer=_pool_init, initargs=(initfn,),
+                        maxtasksperchild=maxtasksperchild)
+        _POOLS[key] = pool
+    clean = False
     try:
         it = pool.imap_unordered(
-            _guard, ((fn, x) for x in items), chunksize=chunksize,
+            _guard_chunk,
+            ((fn, items[i:i + chunksize])
+             for i in range(0, len(items), chunksize)),
         )
         while True:
             try:
@@ -280,19 +292,39 @@ def pmap(
                     left = deadline - time.time()
                     if left <= 0:
                         return
-                    r = it.next(timeout=left)
+                    rs = it.next(timeout=left)
                 else:
-                    r = it.next()
+                    rs = it.next()
             except StopIteration:
+                clean = True
                 return
             except mp.TimeoutError:
                 return
-            if r[0] != 'ok':
-                raise HarnessError(r[1])
-            yield r[1]
+            for r in rs:
+                if r[0] != 'ok':
+                    raise HarnessError(r[1])
+                yield r[1]
     finally:
-        pool.terminate()
-        pool.join()
+        if not clean:
+            # work may still be running in the pool: throw it away
+            _POOLS.pop(key, None)
+            pool.terminate()
+            pool.join()
+
+
+_POOLS: dict = {}
+
+
+def close_pools() -> None:
+    for k in list(_POOLS):
+        p = _POOLS.pop(k)
+        p.terminate()
+        p.join()
+
+
+import atexit  # noqa: E402
+
+atexit.register(close_pools)
 
 
 def chunks(seq: Sequence, n: int) -> list:
